@@ -176,7 +176,11 @@ func run(e *core.Env) {
 		wantSrc string
 		nx      bool
 		dupOK   bool
+		again   bool // same spelling was answered from a mapping before
 	}
+	// Spellings that were answered from the stored mappings: the only mutable
+	// source, so these are the names whose answer must follow later changes.
+	var answered []string
 	outstanding := map[uint16]*pending{}
 	var idSeq uint16 = 100
 	var queue []simnet.Datagram // datagrams the adversary still holds
@@ -243,6 +247,12 @@ func run(e *core.Env) {
 					"%s: expected %s from %s, got %s from %s (resolve %v friends %v mappings %v)", desc, p.wantIP, p.wantSrc, gotIP, gotSrc, mo.resolve, mo.friends, mo.mappings)
 			}
 			e.Probe("answer_from_" + p.wantSrc)
+			if p.wantSrc == "mapping" {
+				if p.again {
+					e.Probe("mapping_changed_between_two_queries_for_one_spelling")
+				}
+				answered = append(answered, p.name)
+			}
 		}
 	}
 
@@ -253,6 +263,10 @@ func run(e *core.Env) {
 		case 0: // build a query datagram; the adversary may hold it
 			l := labels[tp.Intn(len(labels))]
 			name := l + ".myco."
+			again, againName := false, ""
+			if len(answered) > 0 && tp.Chance(1, 4) {
+				again, againName = true, answered[tp.Intn(len(answered))]
+			}
 			switch tp.Intn(11) {
 			case 0:
 				name = strings.ToUpper(name)
@@ -273,8 +287,14 @@ func run(e *core.Env) {
 			case 8:
 				name = l + `\.myco.` // an escaped dot: one label, not in the zone
 			}
+			if again {
+				name = againName
+			}
 			qt := []uint16{mdns.TypeAAAA, mdns.TypeAAAA, mdns.TypeA, mdns.TypeSVCB, mdns.TypeHTTPS, mdns.TypeANY, mdns.TypeTXT, mdns.TypeMX, mdns.TypeCNAME, mdns.TypeNS, mdns.TypePTR, uint16(tp.Intn(65536))}[tp.Intn(12)]
 			cl := []uint16{mdns.ClassINET, mdns.ClassINET, mdns.ClassINET, mdns.ClassANY, mdns.ClassCHAOS, mdns.ClassNONE, uint16(tp.Intn(65536))}[tp.Intn(7)]
+			if again {
+				qt, cl = mdns.TypeAAAA, mdns.ClassINET
+			}
 			idSeq++
 			q := new(mdns.Msg)
 			q.Id = idSeq
@@ -285,10 +305,14 @@ func run(e *core.Env) {
 				continue
 			}
 			queue = append(queue, simnet.Datagram{Data: raw, Addr: clientAddr("[fd00::1]:4242")})
-			queueMeta = append(queueMeta, &pending{id: idSeq, name: name, qtype: qt, class: cl})
+			queueMeta = append(queueMeta, &pending{id: idSeq, name: name, qtype: qt, class: cl, again: again})
 		case 1: // mapping save / delete (the only mutable source)
 			l := labels[tp.Intn(len(labels))]
 			cleaned, valid := config.CleanDomain(l + ".myco")
+			if len(answered) > 0 && tp.Chance(1, 2) {
+				// change a mapping a client has already asked for
+				cleaned, valid = config.CleanDomain(answered[tp.Intn(len(answered))])
+			}
 			if !valid {
 				continue
 			}
